@@ -56,6 +56,9 @@ func NewTDistribution(nu Scalar, mu Vector, sigma Matrix) (*TDistribution, error
   if n != mu.Dim() {
     return nil, fmt.Errorf("NewTDistribution(): dimensions of mu and sigma do not match!")
   }
+  if nu.GetFloat64() <= 0.0 {
+    return nil, fmt.Errorf("NewTDistribution(): nu must be positive!")
+  }
   sigmaInv, err := matrixInverse.Run(sigma, matrixInverse.PositiveDefinite{true})
   if err != nil { return nil, err }
   sigmaDet, err := determinant  .Run(sigma, determinant  .PositiveDefinite{true})
